@@ -39,7 +39,7 @@ def _stimuli_of(labels):
 
 
 def _init_key(st):
-    return (str(st['dir']), str(st['st']), bool(st['file']), bool(st['bg']))
+    return (str(st['dir']), str(st['st']), bool(st['file']), bool(st['bg']), bool(st['failR']))
 
 
 # ---------------------------------------------------------------------------
@@ -52,12 +52,40 @@ class Replayer:
         self.api = api
 
     def run(self, init, stimuli):
-        events = []
-        result, loop = vloop.run(lambda lp: self._main(lp, init, stimuli, events))
-        if loop.unhandled:
-            events.append(dict(ev='loop_exception', what=str(loop.unhandled[0].get('message'))[:200],
-                               snap=events[-1]['snap']))
-        return events
+        return self.run_batch([(init, stimuli)])[0]
+
+    def run_batch(self, items):
+        """Execute many schedules in one virtual loop, one after the other."""
+        out = []
+
+        async def main(loop):
+            self._env = None
+            for init, stimuli in items:
+                events = []
+                before = set(asyncio.all_tasks(loop))
+                n0 = len(loop.unhandled)
+                try:
+                    await self._main(loop, init, stimuli, events)
+                except Exception as exc:          # raised by the code under test outside a caller
+                    events.append(dict(ev='harness_saw_exception', what=type(exc).__name__,
+                                       snap=events[-1]['snap'] if events else {}))
+                if len(loop.unhandled) > n0:
+                    events.append(dict(ev='loop_exception', what=str(loop.unhandled[n0].get('message'))[:200],
+                                       snap=events[-1]['snap']))
+                # leftovers of this schedule must not leak into the next one
+                left = [tk for tk in asyncio.all_tasks(loop) if tk not in before and not tk.done()
+                        and tk is not asyncio.current_task()]
+                for tk in left:
+                    tk.cancel()
+                if left:
+                    try:
+                        await asyncio.wait(left, timeout=5)
+                    except RecursionError:
+                        pass
+                loop.executor_gate = None
+                out.append(events)
+        vloop.run(main)
+        return out
 
     async def _main(self, loop, init, stimuli, events):
         from aioslsk.transfer.model import Transfer, TransferDirection
@@ -68,7 +96,8 @@ class Replayer:
         from aioslsk.events import EventBus
         from aioslsk.user.manager import UserManager
 
-        d, s0, has_file, has_bg = init
+        d, s0, has_file, has_bg = init[:4]
+        has_reason = init[4] if len(init) > 4 else (s0 == 'FAILED')
         direction = TransferDirection.UPLOAD if d == 'up' else TransferDirection.DOWNLOAD
         t = Transfer('peer', 'music\\song.mp3', direction)
         t.state = TransferState.init_from_state(TransferState.State[s0], t)
@@ -84,7 +113,7 @@ class Replayer:
             t.local_path = os.path.join(self.tmpdir, 'shared.mp3')
             with open(t.local_path, 'wb') as fh:
                 fh.write(b'y' * 10)
-        if s0 == 'FAILED':
+        if s0 == 'FAILED' and has_reason:
             t.fail_reason = 'r0'
         if s0 == 'ABORTED':
             t.abort_reason = 'Requested'
@@ -93,11 +122,14 @@ class Replayer:
         if s0 in ('COMPLETE', 'INCOMPLETE'):
             t.complete_time = 6.0
 
-        settings = Settings(credentials={'username': 'me', 'password': 'pw'})
-        bus = EventBus()
-        network = AsyncMock()
-        um = UserManager(settings, bus, network)
-        manager = TransferManager(settings, bus, um, AsyncMock(), network)
+        if getattr(self, '_env', None) is None:
+            settings = Settings(credentials={'username': 'me', 'password': 'pw'})
+            bus = EventBus()
+            network = AsyncMock()
+            um = UserManager(settings, bus, network)
+            self._env = (settings, bus, um, TransferManager(settings, bus, um, AsyncMock(), network))
+        manager = self._env[3]
+        manager._transfers.clear()
         await manager.add(t)
 
         tsmap = {}
@@ -153,7 +185,7 @@ class Replayer:
             await asyncio.sleep(0)
 
         events.append(dict(ev='init', dir=d, st=s0, file=snap()['file'] if d == 'down' else False,
-                           bg=has_bg, snap=snap()))
+                           bg=has_bg, failR=bool(has_reason), snap=snap()))
         if d == 'up':
             events[-1]['file'] = False
 
@@ -176,7 +208,7 @@ class Replayer:
                     if op == 'fail':
                         val = await meth(reason=f'r{c}')
                     elif op == 'abort':
-                        val = await meth(reason='Requested')
+                        val = await meth(reason=f'A{c}')
                     else:
                         val = await meth()
             except asyncio.CancelledError:
@@ -246,26 +278,34 @@ def _fingerprint(tid, info, trace):
 
 
 def collect_schedules(chk: Check, thorough: bool):
+    """TLC-generated behaviours projected onto stimulus schedules, by source."""
     scheds = {}
 
-    # (1) transition cover of the exhaustive 2-caller graph
-    g, res = tlc.dump_graph(SPEC, 'MC_c2.cfg', parse_states='init', timeout=900)
-    if not res.ok:
-        raise MachineryFailure(f'graph dump failed: {[(i.kind, i.name) for i in res.issues]}')
-    paths = tlc.path_cover(g)
-    for p in paths:
-        init = _init_key(g.states[p[0][0]])
-        st = _stimuli_of([e[1] for e in p])
-        if st:
-            scheds.setdefault((init, st), 'cover2')
-    chk.log(f'graph: {len(g.states)} states, {len(g.edges)} edges, {len(paths)} cover paths, '
-            f'{len(scheds)} distinct stimulus schedules')
-    chk.cov['graph_edges_c2'] = len(g.edges)
-    chk.cov['cover_paths_c2'] = len(paths)
+    def add_cover(cfg, tag):
+        g, res = tlc.dump_graph(SPEC, cfg, parse_states='init', timeout=1500)
+        if not res.ok:
+            raise MachineryFailure(f'graph dump failed for {cfg}: {[(i.kind, i.name) for i in res.issues]}')
+        paths = tlc.path_cover(g)
+        n = 0
+        for p in paths:
+            init = _init_key(g.states[p[0][0]])
+            st = _stimuli_of([e[1] for e in p])
+            if st and (init, st) not in scheds:
+                scheds[(init, st)] = tag
+                n += 1
+        chk.log(f'{tag}: {len(g.states)} states, {len(g.edges)} edges, {len(paths)} cover paths, {n} new schedules')
+        chk.cov[f'graph_edges_{tag}'] = len(g.edges)
+        chk.cov[f'cover_paths_{tag}'] = len(paths)
 
-    # (2) random behaviours of the 3-caller model
-    num = 30000 if thorough else 1500
-    behs, sres = tlc.simulate_behaviours(SPEC, 'MC_c3.cfg', num=num, depth=16 if thorough else 14, seed=chk.seed + 1, timeout=900)
+    # (1) transition cover of the exhaustive 2-caller graph
+    add_cover('MC_c2.cfg', 'cover2')
+    # (2) transition cover of the 3-caller graph restricted to a slow first call (the only way for
+    #     calls to overlap in the real code is a holder suspended in task cancellation / file removal)
+    add_cover('MC_c3_slow.cfg', 'slow3')
+    # (3) random behaviours of the unrestricted 3-caller model
+    num = 30000 if thorough else 800
+    behs, sres = tlc.simulate_behaviours(SPEC, 'MC_c3.cfg', num=num, depth=16 if thorough else 14, seed=chk.seed + 1,
+                                         timeout=1500)
     n3 = 0
     for b in behs:
         init = _init_key(b[0][1])
@@ -273,7 +313,7 @@ def collect_schedules(chk: Check, thorough: bool):
         if st and (init, st) not in scheds:
             scheds[(init, st)] = 'sim3'
             n3 += 1
-    chk.log(f'simulation: {len(behs)} behaviours of the 3-caller model, {n3} new schedules')
+    chk.log(f'sim3: {len(behs)} behaviours of the 3-caller model, {n3} new schedules')
     chk.cov['sim_behaviours_c3'] = len(behs)
     return scheds
 
@@ -334,25 +374,45 @@ def run(chk: Check, args):
         chk.add_model('TransferState 3 callers (exhaustive)', r3)
 
     scheds = collect_schedules(chk, thorough)
-    keys = sorted(scheds)
-    if not thorough:
-        # quick: all of the cover, capped sample
-        cap = 6000
-        if len(keys) > cap:
-            chk.rng.shuffle(keys)
-            keys = sorted(keys[:cap])
+    by_src = {}
+    for k, src in scheds.items():
+        by_src.setdefault(src, []).append(k)
+    keys = []
+    caps = dict(cover2=None, slow3=None, sim3=None) if thorough else dict(cover2=4500, slow3=4500, sim3=800)
+    for src, ks in sorted(by_src.items()):
+        ks.sort()
+        cap = caps.get(src)
+        if cap is not None and len(ks) > cap:
+            # stratified sample: schedules in which a call lands between two releases of suspended
+            # holders (a third operation meets a second suspended one) are the rarest and get half
+            def sandwiched(k):
+                rel = [i for i, x in enumerate(k[1]) if x[0] != 'call']
+                return len(rel) >= 2 and any(x[0] == 'call' for x in k[1][rel[0]:rel[-1]])
+            a = [k for k in ks if sandwiched(k)]
+            b = [k for k in ks if not sandwiched(k)]
+            chk.rng.shuffle(a)
+            chk.rng.shuffle(b)
+            na = min(len(a), cap // 2)
+            ks = sorted(a[:na] + b[:cap - na])
+            chk.cov[f'schedules_{src}_sandwiched_total'] = len(a)
+        chk.cov[f'schedules_{src}'] = len(ks)
+        keys += ks
     tmp = tempfile.mkdtemp(prefix='c03-')
     traces, metas = [], []
+    API_OPS = ('abort', 'queue', 'pause')
     try:
         for api in (False, True):
             rp = Replayer(tmp, api)
-            for (init, stim) in keys:
-                ev = rp.run(init, stim)
-                traces.append(ev)
-                metas.append(dict(init=init, stimuli=stim, api=api, source=scheds[(init, stim)]))
-                chk.count(tuple((e['ev'], e.get('c'), e.get('op'), e.get('old'), e.get('new'), e.get('val'),
-                                 e.get('seen')) for e in ev) + (init,),
-                          nontrivial=any(e['ev'] == 'call' for e in ev))
+            # the API variant differs only when some non-task call is abort/queue/pause
+            ks = [k for k in keys if not api or any(s[0] == 'call' and s[2] in API_OPS and not s[3] for s in k[1])]
+            for i in range(0, len(ks), 400):
+                part = ks[i:i + 400]
+                for (init, stim), ev in zip(part, rp.run_batch(part)):
+                    traces.append(ev)
+                    metas.append(dict(init=init, stimuli=stim, api=api, source=scheds[(init, stim)]))
+                    chk.count(tuple((e['ev'], e.get('c'), e.get('op'), e.get('old'), e.get('new'), e.get('val'),
+                                     e.get('seen')) for e in ev) + (init,),
+                              nontrivial=any(e['ev'] == 'call' for e in ev))
     finally:
         shutil.rmtree(tmp, ignore_errors=True)
     chk.log(f'replayed {len(traces)} schedules on the real code')
